@@ -162,6 +162,20 @@ class Gen:
     def op_gc(self):
         self.emit(self.r.choice(["gcstep", "gcstep", "drain"]), "gc")
 
+    def op_lazyread(self):
+        """a bounded read, then the collector, then lookups: which expired frames a read hands to the
+        collector (only those it met before stopping) is observable through get/head afterwards"""
+        kind = self.r.choice(["read", "read", "readsync"])
+        last = "-"
+        if self.frames and self.r.random() < 0.3:
+            last = f"@{self.r.choice(self.frames)['line']}"
+        ctx = self.r.choice(["-"] + self.ctxs)
+        self.emit(f"{kind} {last} {self.r.choice(['1', '1', '2', '3'])} {ctx}", "lazyread")
+        self.emit("drain", "gc")
+        timed = [f for f in self.frames if f["ttl"].startswith("time:")] or self.frames
+        for f in self.r.sample(timed, min(4, len(timed))):
+            self.emit(f"get @{f['line']}", "probe_get")
+
     def op_reopen(self):
         self.emit("reopen", "reopen")
 
@@ -199,11 +213,12 @@ class Gen:
             self.emit(f"append {c} {xh('probe')} - - ephemeral", "probe_ctx")
 
     def history(self, n_ops):
-        w = self.p.get("op_w", {"register": 2, "append": 10, "import": 3, "remove": 3, "tick": 2,
-                                "gc": 3, "reopen": 1, "badctx": 0.3})
+        w = dict(self.p.get("op_w", {"register": 2, "append": 10, "import": 3, "remove": 3, "tick": 2,
+                                     "gc": 3, "reopen": 1, "badctx": 0.3}))
+        w.setdefault("lazyread", self.p.get("w_lazyread", 1))
         fns = {"register": self.op_register, "append": self.op_append, "import": self.op_import,
                "remove": self.op_remove, "tick": self.op_tick, "gc": self.op_gc,
-               "reopen": self.op_reopen, "badctx": self.op_bad_ctx_append}
+               "reopen": self.op_reopen, "badctx": self.op_bad_ctx_append, "lazyread": self.op_lazyread}
         kinds = list(w)
         if self.r.random() < 0.8:
             self.op_register()
